@@ -20,13 +20,20 @@ RULE = ("case = history of 1-4 blocks of 1-6 txs on fresh accounts, through Begi
         "every delivered message, optionally after re-funding) or a "
         "resubmission of a message by another key inside an ordinary Cosmos tx (bare or nested in 1-3 authz.MsgExec, From empty / "
         "forged / real signer), or a Cosmos-signed MsgSend with explicit sequence by the secp256k1 / eth_secp256k1 form of the same key; "
-        "non-trivial = the history holds an accepted message AND a later rejected resubmission or stale/gapped nonce of the "
+        "half of the histories first turn the EVM and/or Cosmos auth account of some keys into a plain BaseAccount (add-genesis-account), "
+        "and a paying message (transfer, drain, call with value and calldata, inner CALL of a contract - optionally reverted -, "
+        "SELFDESTRUCT beneficiary) may name one of the 8 observed accounts as counterparty, mostly a BaseAccount that has executed txs; "
+        "the closing block also resubmits the Cosmos-signed txs; all 8 sequences are observed after every tx; "
+        "non-trivial = a non-EthAccount account with executed txs is paid by another signer's executed message, or the history holds an accepted message AND a later rejected resubmission or stale/gapped nonce of the "
         "same signer, or a multi-message tx, or an accepted tx whose execution failed; distinct = distinct input")
 ASSUMPTIONS = [
     "the address a chain-agnostic ECDSA recovery yields for a tx (go-ethereum Homestead/London signer of the tx's OWN chain id) "
     "is an oracle value computed by the driver; the model decides acceptance from it, the carried chain id and the nonce",
     "m_funded (balance/fee checks of the other decorators pass) and whether a message's value is still covered at execution are "
     "derived by the driver from bank balances (each message against the pre-tx balance; values against what earlier messages left)",
+    "m_touch (scenario accounts a message pays when it runs to completion) and the auth account types (kinds) are supplied by the driver; "
+    "under the proved-faithful loader the model does not depend on them, and Pb checks all 8 observed sequences after every tx",
+    "vesting account types are not registered in this app (SetAccount panics), so only BaseAccount is generated as non-Eth account type",
     "uids identify transactions by their Ethereum hash (collision resistance of keccak256 is assumed by hash_binding)",
 ]
 TRUSTED = ["go-ethereum crypto (secp256k1, keccak) used by the driver to sign, tamper and recover"]
@@ -42,8 +49,13 @@ def _b(x):
 def _msg(d):
     cid = "None" if d["cid"] == "none" else "(Some (%s)%%Z)" % d["cid"]
     sig = "None" if d["signer"] < 0 else "(Some %d)" % d["signer"]
-    return ("{| m_uid := %d; m_nonce := %d%%N; m_cid := %s; m_sig := %s; m_funded := %s; m_exec := %s; m_create := %s |}"
-            % (d["uid"], d["nonce"], cid, sig, _b(d["funded"]), _EXEC[d["exec"]], _b(d["create"])))
+    return ("{| m_uid := %d; m_nonce := %d%%N; m_cid := %s; m_sig := %s; m_funded := %s; m_exec := %s; m_create := %s; m_touch := [%s] |}"
+            % (d["uid"], d["nonce"], cid, sig, _b(d["funded"]), _EXEC[d["exec"]], _b(d["create"]),
+               "; ".join(str(x) for x in d.get("touch") or [])))
+
+
+_KIND = {"eth": "KEth", "base": "KBase", "vest": "KVesting"}
+_PSEUDO = ("fund", "acct")   # driver-side operations, not txs
 
 
 def _tx(tx, der):
@@ -64,7 +76,7 @@ def to_coq_case(rec):
     for blk, dblk, oblk in zip(rec["input"], rec["der"], rec["obs"]):
         items = []
         for tx, d, o in zip(blk, dblk, oblk):
-            if tx["kind"] == "fund":
+            if tx["kind"] in _PSEUDO:
                 continue
             res = "{| r_accepted := %s; r_executed := [%s]; r_created := [%s] |}" % (
                 _b(o["accepted"]), "; ".join(str(u) for u in o["exec"]),
@@ -72,7 +84,8 @@ def to_coq_case(rec):
             items.append("{| o_tx := %s; o_res := %s; o_seqs := [%s] |}" % (
                 _tx(tx, d), res, "; ".join("%d%%N" % s for s in o["seqs"])))
         blocks.append("[%s]" % ";\n     ".join(items))
-    return "((%s)%%Z, [%s])" % (rec["chain"], ";\n    ".join(blocks))
+    kinds = "; ".join(_KIND[k] for k in rec.get("kinds") or [])
+    return "(((%s)%%Z, [%s]), [%s])" % (rec["chain"], kinds, ";\n    ".join(blocks))
 
 
 def _ms(tx):
@@ -82,12 +95,33 @@ def _ms(tx):
 def _flat(rec):
     for blk, dblk, oblk in zip(rec["input"], rec["der"], rec["obs"]):
         for tx, d, o in zip(blk, dblk, oblk):
-            if tx["kind"] == "fund":
+            if tx["kind"] in _PSEUDO:
                 continue
             yield tx, (d or []), o
 
 
+_SLOT = {0: 0, 1: 1, 2: 2, 3: 3, 10: 4, 11: 5, 12: 6, 13: 7}
+
+
+def _touches(rec):
+    """(kind of the touched account, its sequence before the tx, touched by another signer?) for every scenario
+    account paid by an executed message"""
+    kinds = rec.get("kinds") or ["eth"] * 8
+    prev = [0] * 8
+    for tx, d, o in _flat(rec):
+        if tx["kind"] == "eth" and o["exec"]:
+            for x in d:
+                if x["exec"] != "ok":
+                    continue
+                for a in x.get("touch") or []:
+                    if a in _SLOT:
+                        yield kinds[_SLOT[a]], prev[_SLOT[a]], a != x["signer"], ("cosmos" if a >= 10 else "evm")
+        prev = o["seqs"]
+
+
 def nontrivial(rec):
+    if any(k != "eth" and q > 0 and other for k, q, other, _ in _touches(rec)):
+        return True   # an account of another auth type that has executed txs is paid by somebody else's tx
     accepted_signers = set()
     replay_rejected = False
     multi = False
@@ -111,6 +145,12 @@ def nontrivial(rec):
 
 def classify(rec):
     ks = ["blocks=%d" % len(rec["input"])]
+    kinds = rec.get("kinds") or []
+    ks.append("accounts:non-eth=%d" % sum(1 for k in kinds if k != "eth"))
+    for k, q, other, side in _touches(rec):
+        ks.append("paid:%s-account/%s/%s/%s" % (side, k, "seq>0" if q > 0 else "seq=0", "by-other" if other else "by-itself"))
+    if any(k != "eth" and q > 0 and other for k, q, other, _ in _touches(rec)):
+        ks.append("case:non-eth-account-with-history-paid-by-other")
     for tx, d, o in _flat(rec):
         if tx["kind"] == "wrap":
             ks.append("tx:wrapped-eth-msg/depth=%d/from=%s/%s" % (tx["depth"], tx["forge"] or "empty", "accepted" if o["accepted"] else "rejected"))
@@ -176,7 +216,7 @@ def shrink_candidates(inp):
     # drop a tx without eth messages (cosmos txs never shift message indices)
     for bi, b in enumerate(inp):
         for i, tx in enumerate(b):
-            if tx["kind"] in ("cosmos", "fund") and len(b) > 1:
+            if tx["kind"] in ("cosmos", "fund", "acct") and len(b) > 1:
                 out.append(inp[:bi] + [b[:i] + b[i + 1:]] + inp[bi + 1:])
     # merge all blocks into one
     if len(inp) > 1:
@@ -193,7 +233,10 @@ MANIFEST = {
                  "C07_sequence_plus_one_per_accepted (+1 per accepted message whatever execution does; the msg-server bracket "
                  "SetNonce(n)..SetNonce(n+1) reproduces the ante value), C07_nonce_order_shared_sequence (per account the accepted "
                  "sequence numbers are s0,s0+1,... across both tx families), C07_at_most_once (no tx hash executes twice), "
-                 "C07_create_address (deployed at the address of signer and TRANSACTION nonce). The model runs the decorator chain "
+                 "C07_create_address (deployed at the address of signer and TRANSACTION nonce), C07_only_own_txs_move_sequence (a tx moves only "
+                 "its signers' sequences whatever it pays/calls/selfdestructs to and whatever the auth account type - EthAccount, BaseAccount, "
+                 "vesting - for every loader handing the stored sequence to the StateDB; C07_eth_only_loader_refuted for the loader that "
+                 "does so for EthAccounts only; the loader of /repo is re-extracted: C07_current_loader_faithful). The model runs the decorator chain "
                  "re-extracted from NewAnteHandlerEVM on every run (C07_holds_for_current_tree) together with AST-level facts about "
                  "the nonce check, the increment, the signer construction and the msg-server bracket; it is compared with real "
                  "DeliverTx traces and the proved-sound checker Pb is evaluated on those traces."),
